@@ -4,7 +4,7 @@ parameter that only the generator touches), printing a trace of what they do."""
 import lang
 from lang import *  # noqa
 
-NAMES = ['a', 'b', 'x', 'গ', 'মান', 'বয়স']          # deliberately colliding pool
+NAMES = ['a', 'b', 'x', 'গ', 'মান', 'ব\u09dfস']          # deliberately colliding pool
 FN_NAMES = ['f', 'g', 'h']
 TYPES = ['num', 'num', 'num', 'str', 'bool', 'arr', 'obj']
 KEYS_POOL = ['k', 'v', 'নাম', 'z']
